@@ -9,6 +9,7 @@
   Ties to the source re-checked on every run: the word list (`wordlist_is_pinned_copy`), the guards of
   `ValidateEntropySize`/`DecodeWords` (`Gen/Guards.lean`), the seed constants.
 -/
+import BtcVerif.Props.GuardPins.P_bip39
 import BtcVerif.Proofs.Bip39
 import BtcVerif.Proofs.Bip39Reference
 
